@@ -38,3 +38,10 @@ _BUILTIN_HOOKS = []
 def builtin_hook(f):
     _BUILTIN_HOOKS.append(f)
     return f
+
+
+def load_all():
+    from . import models_h2  # noqa: F401
+
+
+load_all()
